@@ -300,7 +300,7 @@ pub fn replay_command_point(fen: &str, fd: u8, mode: &str, n: u64) -> i32 {
     let mg = MoveGenerator::new();
     let cache = RefCache::new(200_000);
     let b = board(fen);
-    command_point(&cache, &mg, &rep, "replay", fen, &b, fd, mode, n);
+    command_point(&cache, crate::eng::tl_mg(), &rep, "replay", fen, &b, fd, mode, n);
     let v = rep.violations.lock().unwrap();
     for x in v.iter() {
         println!("REPLAY-VIOLATION {} :: {}", x.sig, x.text);
@@ -768,13 +768,13 @@ pub fn run(which: &'static str, tier: &str, seed: u64, out: &str, engine_plain: 
                     continue;
                 }
             };
-            if which == "C06" && cache.v(&mg, &b, d).is_none() {
+            if which == "C06" && cache.v(crate::eng::tl_mg(), &b, d).is_none() {
                 per.push(J::obj().set("position", *name).set("depth", d).set("skipped", "reference value unavailable (quiescence cap)"));
                 continue;
             }
             // every deadline 0..T (T itself and beyond = no interruption)
             let points: Vec<u64> = (0..=t).collect();
-            let results: Vec<SweepResult> = par_map(&points, |n| one_point(which, &cache, &mg, &rep, name, fen, &b, d, &[*n], which == "C06"));
+            let results: Vec<SweepResult> = par_map(&points, |n| one_point(which, &cache, crate::eng::tl_mg(), &rep, name, fen, &b, d, &[*n], which == "C06"));
             let hits = results.iter().filter(|r| r.deadline_hit).count() as u64;
             let mo = results.iter().map(|r| r.overrun).max().unwrap_or(0);
             max_overrun = max_overrun.max(mo);
@@ -796,7 +796,7 @@ pub fn run(which: &'static str, tier: &str, seed: u64, out: &str, engine_plain: 
                     }
                     n1 += step;
                 }
-                let pr: Vec<SweepResult> = par_map(&pairs, |(a, c)| one_point(which, &cache, &mg, &rep, name, fen, &b, d, &[*a, *c], true));
+                let pr: Vec<SweepResult> = par_map(&pairs, |(a, c)| one_point(which, &cache, crate::eng::tl_mg(), &rep, name, fen, &b, d, &[*a, *c], true));
                 pairs_done = pr.len() as u64;
                 evaluations += pairs_done;
                 nontrivial += pr.iter().filter(|r| r.deadline_hit).count() as u64;
@@ -810,7 +810,7 @@ pub fn run(which: &'static str, tier: &str, seed: u64, out: &str, engine_plain: 
                         cps.push((mode, n));
                     }
                 }
-                let cr: Vec<bool> = par_map(&cps, |(mode, n)| command_point(&cache, &mg, &rep, name, fen, &b, d, mode, *n));
+                let cr: Vec<bool> = par_map(&cps, |(mode, n)| command_point(&cache, crate::eng::tl_mg(), &rep, name, fen, &b, d, mode, *n));
                 command_done = cr.iter().filter(|x| **x).count() as u64;
                 evaluations += command_done;
                 nontrivial += command_done;
@@ -819,17 +819,17 @@ pub fn run(which: &'static str, tier: &str, seed: u64, out: &str, engine_plain: 
             let mut history_done = 0u64;
             if which == "C06" && (t <= 2500 || thorough) {
                 // completed search one ply deeper than the interrupted one
-                if cache.v(&mg, &b, d + 1).is_some() && total_nodes(&b, d + 1, 20_000).is_some() {
+                if cache.v(crate::eng::tl_mg(), &b, d + 1).is_some() && total_nodes(&b, d + 1, 20_000).is_some() {
                     let step = if thorough || t <= 400 { 1 } else { 3 };
                     let pts: Vec<u64> = (0..=t).step_by(step).collect();
-                    let pr: Vec<SweepResult> = par_map(&pts, |n| one_point_to(which, &cache, &mg, &rep, name, fen, &b, d, d + 1, &[*n], true));
+                    let pr: Vec<SweepResult> = par_map(&pts, |n| one_point_to(which, &cache, crate::eng::tl_mg(), &rep, name, fen, &b, d, d + 1, &[*n], true));
                     deeper_done = pr.len() as u64;
                     evaluations += deeper_done;
                     nontrivial += pr.iter().filter(|r| r.deadline_hit).count() as u64;
                 }
                 // game-history content with a recorded history in place
                 let pts: Vec<u64> = (0..=t).collect();
-                let hr: Vec<bool> = par_map(&pts, |n| history_point(&rep, &mg, name, fen, &b, d, *n));
+                let hr: Vec<bool> = par_map(&pts, |n| history_point(&rep, crate::eng::tl_mg(), name, fen, &b, d, *n));
                 history_done = hr.len() as u64;
                 evaluations += history_done;
                 nontrivial += hr.iter().filter(|x| **x).count() as u64;
@@ -863,7 +863,7 @@ pub fn run(which: &'static str, tier: &str, seed: u64, out: &str, engine_plain: 
                     break;
                 }
                 let points: Vec<u64> = (0..=n_cap).collect();
-                let results: Vec<SweepResult> = par_map(&points, |n| one_point(which, &cache, &mg, &rep, name, fen, &b, d, &[*n], false));
+                let results: Vec<SweepResult> = par_map(&points, |n| one_point(which, &cache, crate::eng::tl_mg(), &rep, name, fen, &b, d, &[*n], false));
                 let hits = results.iter().filter(|r| r.deadline_hit).count() as u64;
                 let mo = results.iter().map(|r| r.overrun).max().unwrap_or(0);
                 max_overrun = max_overrun.max(mo);
@@ -893,7 +893,7 @@ pub fn run(which: &'static str, tier: &str, seed: u64, out: &str, engine_plain: 
                     break;
                 }
                 let points: Vec<u64> = (0..=n_cap).collect();
-                let results: Vec<SweepResult> = par_map(&points, |n| one_point(which, &cache, &mg, &rep, name, fen, &b, d, &[*n], false));
+                let results: Vec<SweepResult> = par_map(&points, |n| one_point(which, &cache, crate::eng::tl_mg(), &rep, name, fen, &b, d, &[*n], false));
                 let hits = results.iter().filter(|r| r.deadline_hit).count() as u64;
                 let mo = results.iter().map(|r| r.overrun).max().unwrap_or(0);
                 let wu = results.iter().map(|r| r.us_per_node).max().unwrap_or(0);
@@ -964,7 +964,7 @@ pub fn replay_history(fen: &str, d: u8, at: u64) -> i32 {
     crate::watch::start_replay();
     let mg = MoveGenerator::new();
     let b = board(&format!("{} 0 1", Pos::from_fen(fen).unwrap().fen4()));
-    history_point(&rep, &mg, "replay", &Pos::from_fen(fen).unwrap().fen(0, 1), &b, d, at);
+    history_point(&rep, crate::eng::tl_mg(), "replay", &Pos::from_fen(fen).unwrap().fen(0, 1), &b, d, at);
     let v = rep.violations.lock().unwrap();
     for x in v.iter() {
         println!("REPLAY-VIOLATION {} :: {}", x.sig, x.text);
@@ -984,7 +984,7 @@ pub fn replay_one(which: &str, fen: &str, d: u8, at: &str, fd: Option<u8>) -> i3
     let cache = RefCache::new(200_000);
     let b = board(&format!("{} 0 1", Pos::from_fen(fen).unwrap().fen4()));
     let ns: Vec<u64> = at.split(',').map(|t| t.parse().unwrap()).collect();
-    let r = one_point_to(which, &cache, &mg, &rep, "replay", &Pos::from_fen(fen).unwrap().fen(0, 1), &b, d, fd.unwrap_or(d), &ns, which == "C06");
+    let r = one_point_to(which, &cache, crate::eng::tl_mg(), &rep, "replay", &Pos::from_fen(fen).unwrap().fen(0, 1), &b, d, fd.unwrap_or(d), &ns, which == "C06");
     let v = rep.violations.lock().unwrap();
     for x in v.iter() {
         println!("REPLAY-VIOLATION {} :: {}", x.sig, x.text);
